@@ -30,11 +30,12 @@ def run(P, rep, tier):
                        'Not decided: positions for all inputs end to end.')
     rep.assumptions += ['the output cursor of an in-place filter never overtakes its input cursor (reads see unmodified input)',
                         'no token starts at a newline character', 'calloc succeeds']
-    r181(P, tu, rep)
-    r182(P, tu, rep)
-    r183(P, tu, rep)
     from .. import lib_c18b
-    lib_c18b.run_rest(P, rep, tier)
+    for rule, f, args in (('R18.1', r181, (P, tu, rep)), ('R18.2', r182, (P, tu, rep)), ('R18.3', r183, (P, tu, rep))) + lib_c18b.rest(P, rep):
+        try:
+            f(*args)
+        except AnalysisBroken as e:      # includes Unsupported: this rule cannot be decided, the others still are
+            rep.undecided(rule, 'engine:%s' % f.__name__, 'the analysis cannot interpret a construct this rule needs: %s' % e)
 
 
 # ------------------------------------------------------------------------------------------
